@@ -86,6 +86,9 @@ def install(I):
     def b_enumerate(I, a, k):
         start = I.conc_int(a[1]) if len(a) > 1 else I.conc_int(k.get("start", 0))
         src = a[0]
+        from .heap import SymObjList
+        if isinstance(src, SymObjList):
+            return ZipView([SymArr(src.length, lambda i: mkint(iadd(i, start)), "int"), src])
         if isinstance(src, SymArr) and src.items is None:
             return ZipView([SymArr(src.length, lambda i: mkint(iadd(i, start)), "int"), src])
         return [(i + start, v) for i, v in enumerate(I.iterate(src))]
@@ -250,6 +253,11 @@ def install(I):
     reg("frozenset", lambda I, a, k: frozenset(I.concrete_key(x) for x in I.iterate(a[0])) if a else frozenset())
 
     def b_sorted(I, a, k):
+        from .heap import SymObjList, SortedPerm
+        src = a[0]
+        if isinstance(src, ZipView) and len(src.arrs) == 2 and isinstance(src.arrs[1], SymObjList):
+            # sorted(enumerate(L), key=...) over a symbolic-length record list: contract (permutation ordered by the key)
+            return SortedPerm(src.arrs[1], (I, k.get("key"), bool(k.get("reverse", False))), ctx().fresh("sigma"))
         seq = list(I.iterate(a[0]))
         return sort_list(I, seq, k.get("key"), k.get("reverse", False))
 
